@@ -16,6 +16,9 @@ from ..core import MachineryError
 from .. import lib_irtree as T
 from ..lib_irexport import FullExporter
 
+# deep (but finite) recursion over the sibling / occurrence lists of parsed routines needs a larger JVM thread stack
+JVM = {'JAVA_TOOL_OPTIONS': '-Xss512m'}
+
 NODE_CLASSES = [('Node',), ('LeafNode',), ('InternalNode',), ('Section',), ('Assignment',), ('Loop',), ('Conditional',),
                 ('Comment',), ('CallStatement',), ('VariableDeclaration',), ('TypeDef',), ('Associate',), ('ScopedNode',),
                 ('Loop', 'Conditional'), ('MultiConditional',), ('Pragma',), ('GenericStmt',), ('PrintStmt',), ('Allocation',),
@@ -228,7 +231,7 @@ def collect_queries(forest_objs, rng, nsample=6):
         match = match[0] if len(match) == 1 else match
         for greedy in (False, True):
             res, exc = attempt(lambda: lir.FindNodes(match, greedy=greedy).visit(forest_objs))  # pylint: disable=cell-var-from-loop
-            q('FindNodes', f='FindNodes', label=f"FindNodes:type:{'+'.join(names)}:greedy={greedy}" + (':raised:' + exc if exc else ''),
+            q('FindNodes', f='FindNodes', label=f"FindNodes:type:{'+'.join(names)}:greedy={greedy}",
               classes=list(names), greedy=greedy, ids=[nid(n) for n in res], exc=exc)
     # sampled nodes for mode='scope' and FindScopes (TypeDef objects themselves are exempt as FindScopes targets)
     cand = list(ex.nodes[1:])
@@ -238,24 +241,24 @@ def collect_queries(forest_objs, rng, nsample=6):
     for n in sample:
         for greedy in (False, True):
             res, exc = attempt(lambda: lir.FindNodes(n, mode='scope', greedy=greedy).visit(forest_objs))  # pylint: disable=cell-var-from-loop
-            q('FindNodesScope', f='FindNodesScope', label=f'FindNodes:scope:greedy={greedy}' + (':raised:' + exc if exc else ''),
+            q('FindNodesScope', f='FindNodesScope', label=f'FindNodes:scope:greedy={greedy}',
               target=recs[nid(n)]['eq'], greedy=greedy, ids=[nid(x) for x in res], exc=exc)
             if type(n).__name__ != 'TypeDef':
                 res, exc = attempt(lambda: lir.FindScopes(n, greedy=greedy).visit(forest_objs))  # pylint: disable=cell-var-from-loop
-                q('FindScopes', f='FindScopes', label=f'FindScopes:greedy={greedy}' + (':raised:' + exc if exc else ''), target=nid(n),
+                q('FindScopes', f='FindScopes', label=f'FindScopes:greedy={greedy}', target=nid(n),
                   greedy=greedy, lists=[[nid(x) for x in path] for path in res], exc=exc)
     for fname, classes in EXPR_FINDERS.items():
         cls = getattr(lir, fname)
         for unique in (False, True):
             res, exc = attempt(lambda: list(cls(unique=unique).visit(forest_objs)))  # pylint: disable=cell-var-from-loop
-            q(fname, f='Expr', label=f'{fname}:unique={unique}' + (':raised:' + exc if exc else ''), classes=list(classes), unique=unique,
+            q(fname, f='Expr', label=f'{fname}:unique={unique}', classes=list(classes), unique=unique,
               ids=[xid(x) for x in res], exc=exc)
             res, exc = attempt(lambda: list(cls(unique=unique, with_ir_node=True).visit(forest_objs)))  # pylint: disable=cell-var-from-loop
             prs = []
             for pair in res:
                 node, xs = pair
                 prs.append({'n': nid(node) if not isinstance(node, tuple) else -1, 'xs': [xid(x) for x in xs]})
-            q(fname, f='Expr', label=f'{fname}:unique={unique}:with_ir_node' + (':raised:' + exc if exc else ''), classes=list(classes),
+            q(fname, f='Expr', label=f'{fname}:unique={unique}:with_ir_node', classes=list(classes),
               unique=unique, pairs=True, prs=prs, exc=exc)
     return forest, fam, ex
 
@@ -320,9 +323,13 @@ def built_case(rng, i):
 
 # --------------------------------------------------------------------------------------------
 
-def norm_key(label):
-    """Normal form of a rejected query: finder, mode flags, node class names abstracted only where sampled."""
-    return label
+DIAG = {'R': 'raised', 'N': 'wrong-node-list', 'M': 'missing-in', 'P': 'pair-of', 'X': 'not-an-occurrence', 'P?': 'pair-for-unexpected-node'}
+
+
+def norm_key(label, diag):
+    """Normal form of a rejected query: finder + mode flags + the spec's diagnosis (node class that was mis-searched)."""
+    code, _, arg = diag.partition(':')
+    return f"{label}:{DIAG.get(code, code)}" + (f':{arg}' if arg else '')
 
 
 def run(ctx):
@@ -331,17 +338,20 @@ def run(ctx):
         c = ctx.replay['case']
         rng = random.Random(c['seed'])
         cases, meta = _make_cases(ctx, rng, c['kind'], c['index'], 1)
-        verdicts = ctx.validate('Trace_Finders', 'Trace_Finders', cases)
+        verdicts = ctx.validate('Trace_Finders', 'Trace_Finders', cases, extra_env=JVM)
         for j, cs in enumerate(cases):
-            ok, clause, pos = verdicts[j]
+            ok, clause, _ = verdicts[j]
             if not ok:
-                ctx.violation(norm_key(clause), f'replayed: finder result rejected: {clause}', c)
+                for part in clause.split(';'):
+                    qi, diag = part.split('=', 1)
+                    key = norm_key(cs['queries'][int(qi) - 1]['label'], diag)
+                    ctx.violation(key, f'replayed: finder result rejected: {key}', c)
         return
-    cfg = _cfg(ctx, 4 if quick else 5)
+    cfg = _cfg(ctx, 3 if quick else 5)
     ctx.mc('MC_Finders', cfg, timeout=2400, coverage=False)
     cases, meta = [], []
-    nparsed = 40 if quick else 600
-    nbuilt = 60 if quick else 1200
+    nparsed = 18 if quick else 150
+    nbuilt = 30 if quick else 400
     feats, nodekinds, exprkinds = set(), set(), set()
     failures = 0
     for kind, n in (('parsed', nparsed), ('built', nbuilt)):
@@ -358,17 +368,17 @@ def run(ctx):
             meta += ms
     if failures > 0.3 * (nparsed + nbuilt):
         raise MachineryError(f'{failures} generated inputs could not be parsed/built')
-    verdicts = ctx.validate('Trace_Finders', 'Trace_Finders', cases, timeout=3000, per_shard_min=8)
+    verdicts = ctx.validate('Trace_Finders', 'Trace_Finders', cases, timeout=3000, per_shard_min=8, extra_env=JVM)
     nq = 0
     for j, (c, m) in enumerate(zip(cases, meta)):
-        ok, clause, pos = verdicts[j]
+        ok, clause, _ = verdicts[j]
         nq += len(c['queries'])
         if not ok:
-            q = c['queries'][pos - 1]
-            ctx.violation(norm_key(clause),
-                          f"{clause} rejected on a {m['kind']} input (features {m.get('features')}): reported "
-                          f"{str(q['ids'] or q['lists'] or q['prs'])[:300]}",
-                          {'kind': m['kind'], 'index': m['index'], 'seed': m['seed']})
+            for part in clause.split(';'):
+                qi, diag = part.split('=', 1)
+                key = norm_key(c['queries'][int(qi) - 1]['label'], diag)
+                ctx.violation(key, f"{key}: finder result rejected on a {m['kind']} input (features {m.get('features')})",
+                              {'kind': m['kind'], 'index': m['index'], 'seed': m['seed']})
     ctx.cover['inputs_parsed'] = nparsed - failures
     ctx.cover['inputs_built'] = nbuilt
     ctx.cover['unparseable_generated_inputs'] = failures
@@ -425,6 +435,9 @@ def _make_cases(ctx, rng, kind, index, only=None, feats=None, nodekinds=None, ex
         _exprkinds(forest, exprkinds)
     cases, meta = [], []
     for family, qs in fam.items():
-        cases.append({'T': forest, 'queries': qs})
-        meta.append({'kind': kind, 'index': index, 'family': family, 'features': features, 'src': src})
+        # few queries per case: the verdict names the first two rejected queries (expression finders: 2 per case)
+        step = 2 if qs[0]['f'] == 'Expr' else 8
+        for k in range(0, len(qs), step):
+            cases.append({'T': forest, 'queries': qs[k:k + step]})
+            meta.append({'kind': kind, 'index': index, 'family': family, 'features': features, 'src': src})
     return cases, meta
